@@ -933,6 +933,24 @@ def port_range(R, P):
             "the port range accepted is not 0..UINT32_MAX: %s" % det)
 
 
+def scheme_scope(R, P):
+    """STATE/scheme-scope: a scheme, when there is one, stands in front of everything else: the colon that ends it is looked for
+    in front of the first '/' and '?' only.  A search over the whole text takes a "://" inside the path or the query of a
+    scheme-less URI (a redirect target) for the scheme delimiter."""
+    f = P.fn("s_parse_scheme")
+    if not R.require(f is not None, "s_parse_scheme not found"):
+        return
+    cols = [e for e in f.calls({"memchr", "__builtin_memchr"}) if f.is_const(RU.uncast(f, RU.arg(f, e.node, 1))) == ord(":")]
+    others = [e for e in f.calls({"memchr", "__builtin_memchr", "strcspn", "aws_byte_cursor_find_exact"}) if e not in cols]
+    if not cols:
+        R.ok("STATE", "scheme-colon-searched-before-the-first-delimiter", "%s()" % f.name, "no whole-text colon search")
+        return
+    whole = [e for e in cols if argstr(f, e.node, 2, addr=False).replace(" ", "") in ("str->len",)]
+    slash_q = any(f.is_const(RU.uncast(f, RU.arg(f, e.node, 1))) in (ord("/"), ord("?")) for e in others if e.node["callee"].endswith("memchr"))
+    R.check(not whole or slash_q, "STATE", "scheme-colon-searched-before-the-first-delimiter", where(f, cols[0]), "the scheme's colon is searched in front of the first '/' / '?' only",
+            "s_parse_scheme looks for ':' in the whole text (memchr(.., ':', str->len)) and takes the first one followed by '/': in a URI without a scheme, a \"://\" inside the path or query becomes the scheme delimiter (www.test.com/a?next=http://x/y -> scheme `www.test.com/a?next=http`, host `x`)")
+
+
 def analyse(ctx, replace=None, only=None):
     R = ctx.R
     units = [u for u in library_units(ctx.ex.repo) if "external" not in u]
@@ -946,6 +964,7 @@ def analyse(ctx, replace=None, only=None):
     host_cursor(R, P)
     authority_end(R, P)
     scheme_colon(R, P)
+    scheme_scope(R, P)
     builder(R, P)
     alphabet(R, P)
     query(R, P)
